@@ -126,6 +126,39 @@ def main():
 
         with h5py.File(p) as f:
             check("A15 get_hdf5_group root / node", get_hdf5_group(f, "") is f and get_hdf5_group(f, "a/b").name == "/a/b" and raises(KeyError, lambda: get_hdf5_group(f, "nope")))
+        # A16 dataset handles and attributes; group.items() enumerates (name, handle)
+        with h5py.File(d / "c.h5", "w") as f:
+            g = f.require_group("node/1/outputs")
+            h = g.create_dataset("y", data=array([1.0, 2.0]))
+            h.attrs.create("sparse", True)
+            h.attrs.create("shape", (2, 3))
+            g.create_dataset("z", data=array([3.0]))
+            its = dict(g.items())
+            check("A16 create_dataset returns the handle; attrs.create/get; items() enumerates the datasets",
+                  set(its) == {"y", "z"} and bool(its["y"].attrs.get("sparse")) and its["z"].attrs.get("sparse") is None
+                  and tuple(its["y"].attrs.get("shape")) == (2, 3) and np.array_equal(array(its["y"]), array([1.0, 2.0])))
+        # S1-S4 scipy sparse arrays: tocsr() keeps the matrix, a CSR array is its triple, csr_array((d, i, p), s) has these components,
+        # hasattr(v, 'indptr') holds for CSR, CSC and BSR (so it does not identify CSR)
+        import scipy.sparse as sp
+
+        m = array([[1.0, 0.0, 0.0], [2.0, 3.0, 0.0], [4.0, 5.0, 6.0], [0.0, 0.0, 7.0]])
+        ok1 = ok3 = True
+        for mk in (sp.csr_array, sp.csc_array, sp.coo_array, sp.lil_array, sp.dok_array, sp.dia_array, lambda a: sp.bsr_array(a, blocksize=(1, 1))):
+            v = mk(m)
+            t = v.tocsr()
+            ok1 &= t.format == "csr" and np.array_equal(t.toarray(), v.toarray())
+            r = sp.csr_array((t.data, t.indices, t.indptr), t.shape)
+            ok3 &= r.format == "csr" and np.array_equal(r.data, t.data) and np.array_equal(r.indices, t.indices) and np.array_equal(r.indptr, t.indptr) \
+                and r.shape == t.shape and np.array_equal(r.toarray(), v.toarray())
+        check("S1 tocsr() is a CSR array denoting the same matrix (7 formats)", ok1)
+        check("S2/S3 csr_array((data, indices, indptr), shape) has these components and denotes the matrix of the triple", ok3)
+        c = sp.csr_array(m)
+        check("S1 tocsr() of a CSR array is the array itself", c.tocsr() is c)
+        check("S4 hasattr(v, 'indptr') holds for CSR, CSC, BSR and not for COO/LIL/DOK/DIA",
+              all(hasattr(f_(m), "indptr") for f_ in (sp.csr_array, sp.csc_array, sp.bsr_array)) and not any(hasattr(f_(m), "indptr") for f_ in (sp.coo_array, sp.lil_array, sp.dok_array, sp.dia_array)))
+        cc = sp.csc_array(m[:3])
+        wrong = sp.csr_array((cc.data, cc.indices, cc.indptr), cc.shape)
+        check("S2 (sanity) the triple of a CSC array read as CSR denotes ANOTHER matrix (the transpose)", not np.array_equal(wrong.toarray(), cc.toarray()) and np.array_equal(wrong.toarray(), cc.toarray().T))
     finally:
         shutil.rmtree(d, ignore_errors=True)
     print("FAILED:" if FAIL else "all h5py model assumptions validated", FAIL or "")
